@@ -14,7 +14,10 @@ from ..impl import Species, reset_globals
 
 TRUST = ["harness/odelib.py parse_sum (canonicaliser of emitted sums) for the correspondence; the oracle does not use it "
          "(Python's own expression parser evaluates the emitted text over the rationals)",
-         "thermal row: gamma, kerg, npar are treated as parameters (rate coefficients held fixed)"]
+         "thermal row: gamma, kerg, npar are treated as parameters (rate coefficients held fixed)",
+         "channel C: g++ 12 and the stand-in headers harness/cxx/sundials, harness/cxx/boost; drivers fexjac_cvode.cpp (rate routines "
+         "replaced by stubs returning given coefficients) and fexjac_odeint.cpp; doubles compared with rationals at relative 1e-9 of the "
+         "sum of the magnitudes of the terms; species rows only (the temperature row and the cuSPARSE kernels are read as text)"]
 
 COOLING_SETS = [["CIC_HI"], ["CIC_HI", "RC_HII"], ["CIC_HeI", "CIC_He_2S"], ["RC_HeIII", "CEC_HI"]]
 COOL_REQ = {"CIC_HI": ["H", "e-"], "RC_HII": ["H+", "e-"], "CIC_HeI": ["He", "e-"], "CIC_He_2S": ["He+", "e-"],
@@ -143,6 +146,104 @@ def corr_rhs(res, a, stmts, where, case):
             return
 
 
+def expected_rows(a, k, y, env, absolute=False):
+    """the mass-action law (+ ODE-modifier terms) of every species at coefficients k and abundances y (Fractions or duals);
+    absolute=True: the sum of the magnitudes of the terms (the scale a floating-point result is compared on)"""
+    kw = a.net._species_kwargs
+    rows = []
+    for i, sp in enumerate(a.species):
+        tot = Fraction(0)
+        for l, r in enumerate(a.info.reactions):
+            nu = sum(1 for p in r.products if p == sp) - sum(1 for q in r.reactants if q == sp)
+            if nu:
+                term = k[l]
+                for q in r.reactants:
+                    term = term * y[f"IDX_{yal(a, q)}"]
+                tot = tot + (abs(nu) if absolute else nu) * term
+        for sname, expr in a.net.ode_modifier.items():
+            if Species(sname, **kw) == sp:
+                for fact, dep in zip(expr["factors"], expr["reactants"]):
+                    t = ol.eval_expr(f"({fact})", env)
+                    if absolute:
+                        t = abs(t)
+                    for d in dep:
+                        t = t * y[f"IDX_{yal(a, Species(d, **kw))}"]
+                    tot = tot + t
+        rows.append(tot)
+    return rows
+
+
+def exec_check(res, a, desc, rng, case, jac=False):
+    """channel C: the rendered CVODE Fex (jac=False) or Jac (jac=True), dense and sparse, compiled as they stand and run with a
+    distinct coefficient per reaction; the species rows are compared with the mass-action law (its exact derivative) evaluated in
+    rationals.  Independent of how the rendered file is laid out."""
+    if desc.get("heating") or not a.species:
+        return
+    mod_syms = {w for m in (desc.get("ode_modifier") or {}).values() for f in m["factors"] for w in re.findall(r"[A-Za-z_]\w*", f)} - {"k", "e", "E"}
+    if mod_syms:
+        res.count("channel C skipped: modifier factor with user symbols")    # `zeta`, `nH`, ...: members of NaunetData, or no variables at all
+        return
+    nre = max(len(a.info.reactions), 1)
+    thermal = bool(a.info.heating or a.info.cooling)
+    cases, exact = [], []
+    for _ in range(2):
+        k = {l: Fraction(rng.randint(1, 64), 16) for l in range(nre)}
+        y = {f"IDX_{al}": Fraction(rng.randint(1, 64), 8) for al in a.aliases}
+        y["IDX_TGAS"] = Fraction(100)
+        kh = [Fraction(rng.randint(1, 8), 8) for _ in a.info.heating]
+        kc = [Fraction(rng.randint(1, 8), 8) for _ in a.info.cooling]
+        cases.append(([k[l] for l in range(len(a.info.reactions))], kh, kc, [y[f"IDX_{al}"] for al in a.aliases] + ([y["IDX_TGAS"]] if thermal else [])))
+        exact.append((k, y))
+    # Odeint: the coefficients are literals of the rendered EvalRates (one of its own per reaction), the same in both cases
+    ko = {l: Fraction(l % 13 + 3, 16) for l in range(nre)}
+    methods = ["dense", "sparse"] + ([] if (desc.get("rate_modifier") or desc.get("tmin") or desc.get("tmax")) else ["odeint"])
+    preps = [ol.prep_odeint(desc, [ko[l] for l in range(len(a.info.reactions))]) if m == "odeint" else ol.prep_fexjac(desc, m) for m in methods]
+    diags = ol.compile_all([c for c, _ in preps])
+    exact_cv = exact
+    for method, (_, exe), diag in zip(methods, preps, diags):
+        where = f"channel C ({'odeint' if method == 'odeint' else 'cvode/' + method}, compiled)"
+        out = None
+        if diag is None:
+            if method == "odeint":
+                exact = [(ko, y) for _, y in exact_cv]
+                out, diag = ol.run_fexjac(exe, [c[3] for c in cases])
+            else:
+                exact = exact_cv
+                out, diag = ol.run_fexjac(exe, [[x for part in c for x in part] for c in cases])
+        if out is None:
+            res.corr_disagreements += 1
+            res.violation("correspondence", f"{where}: {diag}", case)
+            return
+        res.count(f"executed:{method}")
+        for (k, y), o in zip(exact, out):
+            env = make_env(a, rng)
+            env["k"], env["y"], env["y_cur"] = k, y, y
+            scale = [float(x) for x in expected_rows(a, k, y, env, absolute=True)]
+            if not jac:
+                want = expected_rows(a, k, y, env)
+                for i, sp in enumerate(a.species):
+                    if abs(o["F"][i] - float(want[i])) > 1e-9 * (1.0 + scale[i]):
+                        res.violation("oracle", f"{where}: d[{sp.name}]/dt computes to {o['F'][i]!r}, the mass-action law gives {float(want[i])!r} "
+                                      f"(k = {[float(k[l]) for l in sorted(k)][:6]}, y = {[float(v) for v in list(y.values())[:6]]})",
+                                      dict(case, k=[str(k[l]) for l in sorted(k)], y={n_: str(v) for n_, v in y.items()}))
+                        return
+            else:
+                if not o["J_ok"]:
+                    res.violation("oracle", f"{where}: the CSR arrays filled by Jac index outside the matrix: {o['S']}", case)
+                    return
+                for j, al in enumerate(a.aliases):
+                    yd = dict(y)
+                    yd[f"IDX_{al}"] = ol.Dual(y[f"IDX_{al}"], 1)
+                    col = expected_rows(a, k, yd, env)
+                    for i, sp in enumerate(a.species):
+                        w = col[i].b if isinstance(col[i], ol.Dual) else Fraction(0)
+                        if abs(o["J"][i][j] - float(w)) > 1e-9 * (1.0 + scale[i] / float(y[f"IDX_{al}"])) * 8:
+                            res.violation("oracle", f"{where}: J[{sp.name},{a.species[j].name}] computes to {o['J'][i][j]!r}, the derivative of the mass-action "
+                                          f"law is {float(w)!r}", dict(case, k=[str(k[l]) for l in sorted(k)], y={n_: str(v) for n_, v in y.items()}))
+                            return
+    ol.cleanup_scratch()
+
+
 def fex_statements(src: str, kernel=False):
     """ydot statements of a rendered Fex (or of the cusparse kernel)"""
     if kernel:
@@ -222,6 +323,7 @@ def check_desc(res, model, desc, rng, tag, channel_b=False, after=None):
             if a.model is not None:
                 corr_rhs(res, a, st, where, case)
         ol.cleanup_scratch()
+        exec_check(res, a, desc, rng, case, jac=False)
     res.case(("c01", tag, ol.nontrivial_sig(desc)),
              sample={"reactions": [f"{' + '.join(r)} -> {' + '.join(p)}" for r, p in desc["reactions"]][:5],
                      "required": desc.get("required"), "fex[0]": a.ode.fex[0][:160] if a.ode.fex else None},
